@@ -159,7 +159,7 @@ theorem resolvePass_ok (pend : List Pending) : ∀ (ix : Index), AliasOk ix → 
     intro ix hok ix' rest h
     simp only [resolvePass] at h
     cases hd : destOf p with
-    | none => simp [hd] at h
+    | none => simp only [hd] at h; exact ih ix hok ix' rest h
     | some d =>
       simp only [hd] at h
       cases hl : lookup ix d with
